@@ -77,7 +77,12 @@ def build(t):
     if op == "transform":
         rng = np.random.default_rng(3)
         M = np.eye(NFEAT) + 0.2 * rng.normal(size=(NFEAT, NFEAT))
-        return K.DiffTransform(build(t["a"]), M, std=np.array([1.0, 2.0, 0.5, 1.5]), avg=np.array([0.1, 0.0, 0.2, 0.3]))
+        # the optional standardisation arguments in all four combinations (a driver-side dimension, fixed per subtree so that
+        # the object under test and its fresh reference are built alike)
+        import zlib
+        v = zlib.crc32(repr(t["a"]).encode()) % 4
+        return K.DiffTransform(build(t["a"]), M, std=np.array([1.0, 2.0, 0.5, 1.5]) if v in (0, 1) else None,
+                               avg=np.array([0.1, 0.0, 0.2, 0.3]) if v in (0, 2) else None)
     raise ValueError(op)
 
 
